@@ -107,6 +107,9 @@ Definition export_registers (stat : path -> option listed) (e : entry) : option 
        | None => None
        end.
 
+(** "The walk of one of the scan directories lists [p]": [p] lies under one of them (component-wise prefix). *)
+Definition under_of (scans : list path) (p : path) : bool := existsb (fun s => path_prefix s p) scans.
+
 Definition scan_registers (lens : list N) (l : listed) : option (N * (path * fileid)) :=
   if existsb (N.eqb (l_len l)) lens then Some (l_len l, (l_path l, l_id l)) else None.
 
